@@ -79,6 +79,13 @@ def cases_for(ctx):
         s = rng.choice([1, 3, -1, -3])
         cases.append({"kind": "project", "f": t, "s": s, "o": rng.randint(0, 5) + (30 if s < 0 else 0), "hasiv": rng.choice([0, 1]),
                       "iv": [rng.randint(0, 15), rng.randint(10, 40)], "shape": 11})
+    # fibers that also store elements at negative coordinates (halos; the lazy result of project(c -> c - k)): a range or an active range that starts at 0 clips them
+    for _ in range(150 if ctx.quick else 3000):
+        t = {"k": "F", "e": [[c, {"k": "L", "v": rng.choice([0, 1, 2, 3])}] for c in range(-3, 7) if rng.random() < 0.6]}
+        lo = rng.choice([0, 0, -1, 2])
+        cases.append({"kind": "iter", "mode": "range", "f": t, "lo": lo, "hi": rng.randint(lo, 8), "haslo": 1, "hashi": rng.choice([0, 1]), "shape": 8})
+        cases.append({"kind": "iter", "mode": "active", "f": t, "hasact": 1, "act": [0, rng.randint(1, 8)], "shape": 8})
+        cases.append({"kind": "iter", "mode": "occ", "f": t, "shape": 8})
     return cases
 
 
